@@ -11,7 +11,7 @@ Variable E : env.
 (* resolveType hooks, defined in Model/Types.v *)
 Variable hook_call : node -> st -> node * st.          (* visit_mut_call_expr, after children *)
 Variable hook_declarator : node -> st -> node * st.    (* visit_mut_var_declarator *)
-Variable hook_ts_decl : node -> st -> st.              (* interface / alias registration *)
+Variable collect_ts_decls : node -> st -> st.          (* pre-pass: registers every interface / alias *)
 
 (* ---- v-models (visit_mut_jsx_opening_element) ------------------------------------------ *)
 Fixpoint split_at_vmodels (attrs : list node) : option (list node * node * list node) :=
@@ -184,8 +184,6 @@ Fixpoint visit (m : mode) (n : node) (s : st) {struct n} : node * st :=
         let ty := ntype n in
         if sq "ImportDeclaration" ty then (n', post_import n' s)
         else if sq "VariableDeclarator" ty then hook_declarator n' s
-        else if sq "TsInterfaceDeclaration" ty || sq "TsTypeAliasDeclaration" ty
-        then (n', hook_ts_decl n' s)
         else (n', s)
   | NArr l =>
       match m with
@@ -296,6 +294,7 @@ Definition transform_module (m : node) : node * st :=
   match m with
   | NObj [Field kt ty; Field kb (NArr items); interp] =>
       let s := search_pragmas (e_comments E) st0 in
+      let s := collect_ts_decls m s in
       let '(items', s) := visit_list_with visit MExpr items s in
       let '(items'', s) := finish_module items' s in
       (NObj [Field kt ty; Field kb (NArr items''); interp], s)
